@@ -10,6 +10,8 @@
 
 #include <covfie/core/backend/primitive/array.hpp>
 #include <covfie/core/backend/transformer/affine.hpp>
+#include <covfie/core/backend/transformer/backup.hpp>
+#include <covfie/core/backend/transformer/clamp.hpp>
 #include <covfie/core/backend/transformer/hilbert.hpp>
 #include <covfie/core/backend/transformer/linear.hpp>
 #include <covfie/core/backend/transformer/morton.hpp>
@@ -541,9 +543,265 @@ static void early_pool(const std::string & oname, unsigned T, uint64_t seed)
     vh::sample(nm, "T=" + std::to_string(T) + " workers started before the field existed; values incl. float subnormals equal the sequential run bit for bit", 1);
 }
 
+// ------------------------------------------------------------------ view copies
+// Views are value types: every thread works on its OWN COPY of a view whose original has been overwritten and
+// freed before the threads start (the way a view is passed by value into a kernel or a worker).  A copy that still
+// refers to the object it was copied from reads freed (zeroed) memory.
+template <typename ORDER, int INTERP, std::size_t N>
+static void view_copies(const std::string & oname, unsigned T, uint64_t seed)
+{
+    using B = typename stack_of<ORDER, INTERP, false, N>::type;
+    using F = covfie::field<B>;
+    using V = typename F::view_t;
+    static_assert(std::is_trivially_copyable_v<V>, "views are trivially copyable (covfie/core/concepts.hpp)");
+    const std::string nm = std::string("view-copies/") + iname[INTERP] + oname;
+    vh::set_case("%s T=%u", nm.c_str(), T);
+    const std::size_t extv[4] = {12, 7, 5, 3};
+    covfie::utility::nd_size<N> ext;
+    std::size_t mx = 0, side = 1, len = 1;
+    for (std::size_t k = 0; k < N; ++k) {
+        ext[k] = extv[k];
+        mx = extv[k] > mx ? extv[k] : mx;
+    }
+    while (side < mx) side *= 2;
+    for (std::size_t k = 0; k < N; ++k) len *= side;
+    F f = [&] {
+        if constexpr (INTERP != I_NONE)
+            return F(covfie::make_parameter_pack(std::monostate{}, typename ORDER::configuration_t(ext), covfie::utility::nd_size<1>{len}));
+        else
+            return F(covfie::make_parameter_pack(typename ORDER::configuration_t(ext), covfie::utility::nd_size<1>{len}));
+    }();
+    {
+        const typename ORDER::owning_data_t * od;
+        if constexpr (INTERP != I_NONE)
+            od = &f.backend().get_backend();
+        else
+            od = &f.backend();
+        typename ORDER::non_owning_data_t raw(*od);
+        uint64_t c[N] = {};
+        for (uint64_t id = 0;; ++id) {
+            typename ORDER::contravariant_input_t::vector_t cc;
+            for (std::size_t k = 0; k < N; ++k) cc[k] = c[k];
+            for (std::size_t j = 0; j < 3; ++j) raw.at(cc)[j] = (float)((id * 3 + j) % 2039);
+            std::size_t k = 0;
+            while (k < N && ++c[k] >= ext[k]) c[k++] = 0;
+            if (k == N) break;
+        }
+    }
+    const unsigned nops = 500;
+    std::vector<std::vector<float>> ops(T);
+    for (unsigned t = 0; t < T; ++t) {
+        vh::Rng rng(seed * 7927 + t);
+        ops[t].resize(nops * N);
+        for (unsigned i = 0; i < nops; ++i)
+            for (std::size_t k = 0; k < N; ++k) ops[t][i * N + k] = INTERP == I_NONE ? (float)rng.below(ext[k]) : (float)(rng.unit() * (double)(ext[k] - 1) * 0.999);
+    }
+    auto run_ops = [&](const V & v, unsigned t) {
+        uint64_t d = 0;
+        for (unsigned i = 0; i < nops; ++i) {
+            typename F::coordinate_t c;
+            for (std::size_t k = 0; k < N; ++k) {
+                if constexpr (INTERP == I_NONE)
+                    c[k] = (std::size_t)ops[t][i * N + k];
+                else
+                    c[k] = ops[t][i * N + k];
+            }
+            typename F::output_t r = v.at(c);
+            for (std::size_t j = 0; j < 3; ++j) {
+                float val = r[j];
+                d = vh::mix(d, val);
+            }
+        }
+        return d;
+    };
+    // copies first, then the original is zeroed and freed
+    V * orig = new V(f);
+    std::vector<V> copies(T, *orig);
+    std::vector<V> assigned;
+    for (unsigned t = 0; t < T; ++t) {
+        V other(f);
+        other = *orig;  // copy assignment as well
+        assigned.push_back(other);
+    }
+    std::memset(static_cast<void *>(orig), 0, sizeof(V));
+    delete orig;
+    std::vector<uint64_t> got(T, 0), want(T, 0);
+    std::vector<std::thread> th;
+    std::atomic<unsigned> go{0};
+    for (unsigned t = 0; t < T; ++t)
+        th.emplace_back([&, t, mine = (t & 1) ? assigned[t] : copies[t]] {
+            go.fetch_add(1, std::memory_order_relaxed);
+            while (go.load(std::memory_order_relaxed) < T) {
+            }
+            got[t] = run_ops(mine, t);
+        });
+    for (auto & t : th) t.join();
+    {
+        V fresh(f);
+        for (unsigned t = 0; t < T; ++t) want[t] = run_ops(fresh, t);
+    }
+    vh::ev((uint64_t)T * nops);
+    vh::stat("threads_started", T);
+    vh::stat("view_copy_scenarios");
+    for (unsigned t = 0; t < T; ++t)
+        if (got[t] != want[t]) {
+            vh::viol("digest:" + nm, "thread " + std::to_string(t) + " working on its own copy of a view (original view destroyed) obtained values that differ from a fresh view's");
+            break;
+        }
+    vh::sample(nm, "T=" + std::to_string(T) + " threads each used a by-value copy of a view after the original was zeroed and freed; digests equal a fresh view's", 1);
+}
+
+// ------------------------------------------------------------------ guarded stacks, special values
+// backup<ORDER> and clamp<ORDER> over storage that holds NaN, infinities and negative zero in some cells: every
+// thread reads the same cells (the special ones included) through one shared view.  The concurrent phase runs FIRST
+// (a lookup that repaired or cached anything on first sight would do so concurrently); afterwards the storage must
+// be bit-for-bit what it was: lookups never modify a field.
+template <typename ORDER, std::size_t N>
+static void guarded(const std::string & oname, unsigned T, uint64_t seed)
+{
+    using BK = cb::backup<ORDER>;
+    using CL = cb::clamp<ORDER>;
+    using FB = covfie::field<BK>;
+    using FC = covfie::field<CL>;
+    const std::string nm = "guarded/" + oname;
+    vh::set_case("%s T=%u", nm.c_str(), T);
+    const std::size_t extv[4] = {9, 6, 5, 3};
+    covfie::utility::nd_size<N> ext;
+    std::size_t mx = 0, side = 1, len = 1;
+    for (std::size_t k = 0; k < N; ++k) {
+        ext[k] = extv[k];
+        mx = extv[k] > mx ? extv[k] : mx;
+    }
+    while (side < mx) side *= 2;
+    for (std::size_t k = 0; k < N; ++k) len *= side;
+    typename BK::configuration_t bc;
+    typename CL::configuration_t cc_;
+    for (std::size_t k = 0; k < N; ++k) {
+        bc.min[k] = cc_.min[k] = 1;
+        bc.max[k] = cc_.max[k] = ext[k] - 2;
+    }
+    for (std::size_t j = 0; j < 3; ++j) bc.default_value[j] = -7.f - (float)j;
+    FB fb(covfie::make_parameter_pack(std::move(bc), typename ORDER::configuration_t(ext), covfie::utility::nd_size<1>{len}));
+    FC fc(covfie::make_parameter_pack(std::move(cc_), typename ORDER::configuration_t(ext), covfie::utility::nd_size<1>{len}));
+    auto fill = [&](const typename ORDER::owning_data_t & od) {
+        typename ORDER::non_owning_data_t raw(od);
+        vh::Rng rng(seed * 131 + 5);
+        uint64_t c[N] = {};
+        for (uint64_t id = 0;; ++id) {
+            typename ORDER::contravariant_input_t::vector_t cc;
+            for (std::size_t k = 0; k < N; ++k) cc[k] = c[k];
+            for (std::size_t j = 0; j < 3; ++j) {
+                float v = (float)((id * 3 + j) % 509);
+                switch (rng.below(6)) {
+                case 0: v = std::numeric_limits<float>::quiet_NaN(); break;
+                case 1: v = (j & 1) ? -std::numeric_limits<float>::infinity() : std::numeric_limits<float>::infinity(); break;
+                case 2: v = -0.f; break;
+                default: break;
+                }
+                raw.at(cc)[j] = v;
+            }
+            std::size_t k = 0;
+            while (k < N && ++c[k] >= ext[k]) c[k++] = 0;
+            if (k == N) break;
+        }
+    };
+    fill(fb.backend().get_backend());
+    fill(fc.backend().get_backend());
+    auto snapshot = [&](const typename ORDER::owning_data_t & od) {
+        typename ORDER::backend_t::non_owning_data_t av(od.get_backend());
+        std::vector<uint32_t> bits(len * 3);
+        for (std::size_t i = 0; i < len; ++i)
+            for (std::size_t j = 0; j < 3; ++j) {
+                float v = av.at(i)[j];
+                std::memcpy(&bits[i * 3 + j], &v, 4);
+            }
+        return bits;
+    };
+    const std::vector<uint32_t> before_b = snapshot(fb.backend().get_backend()), before_c = snapshot(fc.backend().get_backend());
+    typename FB::view_t vb(fb);
+    typename FC::view_t vc(fc);
+    // every thread sweeps the whole lattice (a rotation of it), a margin outside the box included
+    auto sweep = [&](unsigned t) {
+        uint64_t d = 0, c[N] = {};
+        for (;;) {
+            typename FB::coordinate_t x;
+            for (std::size_t k = 0; k < N; ++k) x[k] = (c[k] + t) % ext[k];
+            typename FB::output_t r1 = vb.at(x);
+            typename FC::output_t r2 = vc.at(x);
+            for (std::size_t j = 0; j < 3; ++j) {
+                float a = r1[j], b = r2[j];
+                d = vh::mix(vh::mix(d, a), b);
+            }
+            std::size_t k = 0;
+            while (k < N && ++c[k] >= ext[k]) c[k++] = 0;
+            if (k == N) break;
+        }
+        return d;
+    };
+    std::vector<uint64_t> got(T, 0);
+    std::vector<std::thread> th;
+    std::atomic<unsigned> go{0};
+    for (unsigned t = 0; t < T; ++t)
+        th.emplace_back([&, t] {
+            go.fetch_add(1, std::memory_order_relaxed);
+            while (go.load(std::memory_order_relaxed) < T) {
+            }
+            uint64_t d = 0;
+            for (unsigned rep = 0; rep < 6; ++rep) d = d * 1099511628211ull + sweep(t);
+            got[t] = d;
+        });
+    for (auto & t : th) t.join();
+    uint64_t cells = 1;
+    for (std::size_t k = 0; k < N; ++k) cells *= ext[k];
+    vh::ev((uint64_t)T * 6 * cells * 2);
+    vh::stat("threads_started", T);
+    vh::stat("guarded_scenarios");
+    if (snapshot(fb.backend().get_backend()) != before_b) vh::viol("lookup-modified-storage:" + nm, "storage under backup<> differs bit-wise after concurrent lookups (cells holding NaN / inf / -0 included)");
+    if (snapshot(fc.backend().get_backend()) != before_c) vh::viol("lookup-modified-storage:" + nm, "storage under clamp<> differs bit-wise after concurrent lookups");
+    // sequential reference afterwards, against the model: in the box the stored cell, outside the default / the clamped cell
+    {
+        typename ORDER::non_owning_data_t rb(fb.backend().get_backend()), rc(fc.backend().get_backend());
+        for (unsigned t = 0; t < T; ++t) {
+            uint64_t d = 0;
+            for (unsigned rep = 0; rep < 6; ++rep) {
+                uint64_t h = 0, c[N] = {};
+                for (;;) {
+                    typename ORDER::contravariant_input_t::vector_t x, y;
+                    bool inside = true;
+                    for (std::size_t k = 0; k < N; ++k) {
+                        x[k] = (c[k] + t) % ext[k];
+                        y[k] = x[k] < 1 ? 1 : (x[k] > ext[k] - 2 ? ext[k] - 2 : x[k]);
+                        inside = inside && x[k] >= 1 && x[k] <= ext[k] - 2;
+                    }
+                    for (std::size_t j = 0; j < 3; ++j) {
+                        float a = inside ? (float)rb.at(x)[j] : -7.f - (float)j, b = rc.at(y)[j];
+                        h = vh::mix(vh::mix(h, a), b);
+                    }
+                    std::size_t k = 0;
+                    while (k < N && ++c[k] >= ext[k]) c[k++] = 0;
+                    if (k == N) break;
+                }
+                d = d * 1099511628211ull + h;
+            }
+            if (d != got[t]) {
+                vh::viol("digest:" + nm, "thread " + std::to_string(t) + " obtained values through backup<>/clamp<> that differ from the sequential model (stored NaN/inf/-0 cells returned as stored inside the box)");
+                break;
+            }
+        }
+    }
+    vh::nontrivial(vh::fnv(nm) + T);
+    vh::sample(nm, "T=" + std::to_string(T) + " threads swept backup<> and clamp<> over storage with NaN/inf/-0 cells; storage bit-identical afterwards", 1);
+}
+
 template <typename ORDER, std::size_t N>
 static void all_stacks(const std::string & oname, uint64_t seed, unsigned R)
 {
+    for (unsigned T : {3u, 8u}) {
+        view_copies<ORDER, I_NONE, N>(oname, T, seed);
+        view_copies<ORDER, I_LINEAR, N>(oname, T, seed);
+        view_copies<ORDER, I_NN, N>(oname, T, seed);
+        guarded<ORDER, N>(oname, T * 2, seed);
+    }
 
     for (unsigned rep = 0; rep < R; ++rep)
         for (unsigned T : {2u, 6u, 16u}) {
